@@ -917,6 +917,11 @@ class ArgumentParser(ParserDeprecations, ActionsContainer, ArgumentLinking, argp
             if not overwrite and os.path.isfile(path.absolute):
                 raise ValueError(f"Refusing to overwrite existing file: {path.absolute}")
 
+        def check_encodable(*contents):
+            with open(os.devnull, "w") as f:  # what the file encoding can not write fails before any file is opened
+                for content in contents:
+                    f.write(content)
+
         dump_kwargs = {"format": format, "skip_none": skip_none, "skip_validation": skip_validation}
 
         if fsspec_support:
@@ -929,21 +934,21 @@ class ArgumentParser(ParserDeprecations, ActionsContainer, ArgumentLinking, argp
                     if multifile:
                         raise NotImplementedError(f"multifile=True not supported for fsspec paths: {path}")
                     fsspec = import_fsspec("ArgumentParser.save")
+                    dump = self.dump(cfg, **dump_kwargs)  # type: ignore[arg-type]  # before the target is opened
+                    check_encodable(dump)
                     if not overwrite:
                         fs, fs_path = fsspec.core.url_to_fs(str(path))
                         if fs.isfile(fs_path):
                             raise ValueError(f"Refusing to overwrite existing file: {path}")
                     with fsspec.open(path, "w") as f:
-                        f.write(self.dump(cfg, **dump_kwargs))  # type: ignore[arg-type]
+                        f.write(dump)
                     return
 
         path_fc = Path(path, mode="fc")
         check_overwrite(path_fc)
 
         def write_files(files):
-            with open(os.devnull, "w") as f:  # what the file encoding can not write fails before any file is opened
-                for _, content in files:
-                    f.write(content)
+            check_encodable(*[content for _, content in files])
             for write_path, content in files:
                 with open(write_path, "w") as f:
                     f.write(content)
